@@ -3,6 +3,7 @@ package rules
 import (
 	"go/token"
 	"go/types"
+	"regexp"
 	"regexp/syntax"
 	"sort"
 	"strings"
@@ -341,6 +342,42 @@ func checkC19(c *km.Ctx) {
 	if len(names) < 3 {
 		r.AnchorLost("R-C19-4", "key generation calls in the client")
 	}
+	// the whole pattern (not only its alternation) admits the line the client submits for each offered type:
+	// "<type> <base64 of the wire blob>\n" as produced by ssh.MarshalAuthorizedKey; the blob length, and with it
+	// the base64 padding, is fixed by the key type. The words are synthesised from the lengths, the pattern is
+	// the constant read from the server source; nothing of keymaster is run.
+	if sfn := c.P.Func("cmd/keymasterd", "getValidSSHPublicKey"); sfn != nil {
+		pats := regexpPatternsUsedBy(c, sfn)
+		blobLen := map[string]int{"ssh-ed25519": 4 + 11 + 4 + 32, "ecdsa-sha2-nistp256": 4 + 19 + 4 + 8 + 4 + 65, "ecdsa-sha2-nistp384": 4 + 19 + 4 + 8 + 4 + 97, "ecdsa-sha2-nistp521": 4 + 19 + 4 + 8 + 4 + 133}
+		if rsaBits > 0 {
+			blobLen["ssh-rsa"] = 4 + 7 + 4 + 3 + 4 + int(rsaBits)/8 + 1
+		}
+		for _, k := range names {
+			n, known := blobLen[k]
+			if !known || len(pats) == 0 {
+				continue
+			}
+			pad := (3 - n%3) % 3
+			body := strings.Repeat("A", 4*((n+2)/3)-pad) + strings.Repeat("=", pad)
+			okAll := true
+			var missed []string
+			for _, pat := range pats {
+				re, err := regexp.Compile(pat)
+				if err != nil {
+					okAll = false
+					missed = append(missed, "pattern does not compile")
+					continue
+				}
+				for _, line := range []string{k + " " + body + "\n", k + " " + body, k + " " + body + " user@host\n"} {
+					if !re.MatchString(line) {
+						okAll = false
+						missed = appendUniq(missed, sprintf("%q", strings.Replace(line, body, "<"+sprintf("%d", len(body)-pad)+" base64 chars>"+strings.Repeat("=", pad), 1)))
+					}
+				}
+			}
+			r.Add("R-C19-4", "client key generation", "server pattern admits the "+k+" key line", offered[k], sprintf("the server's key-file pattern matches \"%s <base64 of a %d byte blob, %d padding characters>[ comment][\\n]\"", k, n, pad), sprintf("not matched: %v", missed), okAll)
+		}
+	}
 	r.Add("R-C19-4", "client key generation", "RSA key size", "-", "constant >= 2048 bits (server requires Size() >= 256 bytes)", sprintf("%d", rsaBits), rsaBits >= 2048)
 }
 
@@ -363,6 +400,57 @@ func rangesOverList(fn *ssa.Function) bool {
 	return ok
 }
 
+// regexpPatternsUsedBy: the constant patterns fn matches against - given to regexp.MatchString / Compile /
+// MustCompile in fn itself, or compiled once into a package-level variable whose methods fn calls.
+func regexpPatternsUsedBy(c *km.Ctx, fn *ssa.Function) []string {
+	var out []string
+	compiled := func(v ssa.Value) (string, bool) {
+		cl, _ := callRes(km.Unwrap(v))
+		if cl == nil {
+			return "", false
+		}
+		n := km.CalleeFull(cl.Common())
+		if n != "regexp.MustCompile" && n != "regexp.Compile" && n != "regexp.MustCompilePOSIX" {
+			return "", false
+		}
+		return km.ConstString(cl.Common().Args[0])
+	}
+	for _, ci := range km.CallsIn(fn) {
+		n := km.CalleeFull(ci.Common())
+		if n == "regexp.MatchString" || n == "regexp.MustCompile" || n == "regexp.Compile" || n == "regexp.Match" {
+			if pat, ok := km.ConstString(ci.Common().Args[0]); ok {
+				out = appendUniq(out, pat)
+			}
+			continue
+		}
+		if strings.HasPrefix(n, "(*regexp.Regexp).") {
+			recv := km.Unwrap(ci.Common().Args[0])
+			if pat, ok := compiled(recv); ok {
+				out = appendUniq(out, pat)
+				continue
+			}
+			if u, ok := recv.(*ssa.UnOp); ok {
+				if g, ok := u.X.(*ssa.Global); ok {
+					// stores into the global anywhere in its package (normally the package initialiser)
+					for _, f2 := range c.P.AllFuncs {
+						if f2.Pkg != g.Pkg {
+							continue
+						}
+						km.Instrs(f2, func(in ssa.Instruction) {
+							if st, ok := in.(*ssa.Store); ok && st.Addr == ssa.Value(g) {
+								if pat, ok := compiled(st.Val); ok {
+									out = appendUniq(out, pat)
+								}
+							}
+						})
+					}
+				}
+			}
+		}
+	}
+	return out
+}
+
 // serverKeyTypeAlternation parses the constant pattern of getValidSSHPublicKey and returns the literals of its
 // first alternation.
 func serverKeyTypeAlternation(c *km.Ctx) []string {
@@ -371,15 +459,7 @@ func serverKeyTypeAlternation(c *km.Ctx) []string {
 		return nil
 	}
 	var out []string
-	for _, ci := range km.CallsIn(fn) {
-		n := km.CalleeFull(ci.Common())
-		if n != "regexp.MatchString" && n != "regexp.MustCompile" && n != "regexp.Compile" {
-			continue
-		}
-		pat, ok := km.ConstString(ci.Common().Args[0])
-		if !ok {
-			continue
-		}
+	for _, pat := range regexpPatternsUsedBy(c, fn) {
 		re, err := syntax.Parse(pat, syntax.Perl)
 		if err != nil {
 			continue
